@@ -51,4 +51,8 @@ class FileInfo(BaseModel):
         if ".." in v.parts:
             raise ValueError("A .. is present in the path which could allow "
                              "directory traversal above `dataset_root_path`.")
+        if v.is_absolute():
+            raise ValueError("An absolute path is not relative to the "
+                             "`dataset_root_path` (joining it would leave "
+                             "the dataset directory).")
         return v
